@@ -10,7 +10,7 @@
    recorded difference (known finding). That the real documents are such trees and that the reader model is the real reader is the correspondence. *)
 From Coq Require Import String Sorting.Permutation.
 From KV Require Import Base.Prelude Base.Exn Base.Bytes Model.Data Model.KsrPolicy Model.Xml Proofs.LoadProofs Proofs.PopProofs
-  Spec.KeyRules Model.XmlTree Proofs.XmlTreeProofs.
+  Spec.KeyRules Model.XmlTree Proofs.XmlTreeProofs Model.Duration Model.Datetime Proofs.DatetimeProofs.
 
 Theorem C12_bundle_order_independent : forall l l',
   distinct_keys l -> Permutation l l' -> sort_bundles l = sort_bundles l'.
@@ -48,6 +48,14 @@ Theorem C12_prolog_without_lt : forall P, no_lt P = true ->
   forall rest pos, index_aux KSR_OPEN (P ++ rest) pos = index_aux KSR_OPEN rest (pos + length P)%nat.
 Proof. intros P H rest pos. apply (index_skip_nolt (fun _ => false) [75; 83; 82] P H). Qed.
 Print Assumptions C12_prolog_without_lt.
+
+(* timestamps: the three notations of a UTC instant that KSR and SKR files use (offset-less, "Z", "+00:00") are read as the same instant -
+   the one ElementTree + fromisoformat give - for every second of the years 1000..9999; no host time zone enters the reading
+   (model: Model.Datetime.read_utc, tied to kskm's parse_datetime by the CStamp cases, which are run under several process time zones) *)
+Theorem C12_timestamp_notations : forall s, min_seconds <= s <= max_seconds ->
+  read_utc (format_body s) = Some s /\ read_utc (format_body s ++ [90]) = Some s /\ read_utc (format_body s ++ utc_suffix) = Some s.
+Proof. exact read_utc_notations. Qed.
+Print Assumptions C12_timestamp_notations.
 
 (* the premises are satisfiable: a small document with attributes, repeated names, an empty pair and a self-closing element *)
 Example C12_plain_form_example :
